@@ -1,14 +1,15 @@
 #!/usr/bin/env python3
 """Write the go -overlay file mapping /verif/harness/<pkgdir>/*.go into /repo/<pkgdir>/."""
 import json, os, sys
-H = '/verif/harness'
+H = os.path.join(os.path.dirname(os.path.dirname(os.path.abspath(__file__))), 'harness')
 out = sys.argv[1]
+REPO = sys.argv[2] if len(sys.argv) > 2 else '/repo'
 rep = {}
 for d, _, files in os.walk(H):
     rel = os.path.relpath(d, H)
     for f in files:
         if not f.endswith('.go'): continue
-        if rel == 'main': tgt = os.path.join('/repo', f)
-        else: tgt = os.path.join('/repo', rel, f)
+        if rel == 'main': tgt = os.path.join(REPO, f)
+        else: tgt = os.path.join(REPO, rel, f)
         rep[tgt] = os.path.join(d, f)
 json.dump({'Replace': rep}, open(out, 'w'), indent=1)
